@@ -90,7 +90,7 @@ func runC12(w *fw.W) {
 	// ints, strs, arrays, of objects with a user B, of prototypes), never a function of its own (empty) props
 	for _, src := range []string{"1.bear", "0.bear", "'a.bear", `"".bear`, "[1].bear", "[].bear", "1.5.bear", "0.0.bear", "objB1.bear", "objB1.bear.bear", "objB0.bear",
 		"objBint.bear", "objBnil.bear.bear", "{}.bear", "{a: 1}.bear.bear", "1.bear({})", "0.bear({})", "true.bear", "false.bear", "nil.bear", "Int.bear", "Obj.bear", "PIntT.new(0).bear",
-		"PIntF.new(7).bear", "%{1: 2}.bear", "%{}.bear", "(1:3).bear", "{|x| x}.bear", "1.bear.bear({})", "objB1.bear({})", "objB0.bear({z: 1})"} {
+		"PIntF.new(7).bear", "{name: 1, B: m{raise ValueErr.new(\"cannot boolify\")}}", "{B: m{raise ValueErr.new(\"cannot boolify\")}}.bear", "{B: m{1 / 0}}.bear({x: 1})", "%{1: 2}.bear", "%{}.bear", "(1:3).bear", "{|x| x}.bear", "1.bear.bear({})", "objB1.bear({})", "objB0.bear({z: 1})"} {
 		name := fmt.Sprintf("x%d", len(pool.Vals))
 		o := ip.Run(name+" := "+src, interp.Options{Env: pool.Env, Fuel: -1})
 		if !o.OK() {
@@ -124,17 +124,22 @@ func runC12(w *fw.W) {
 			return ip.EvalNode(t.Prog, interp.Options{Env: env, Fuel: 100000}, nil)
 		}
 		bo := evalIn(tB, map[string]object.PanObject{"v": v.Val})
-		if !bo.OK() {
+		if !bo.OK() && (bo.Err == nil || bo.ErrKind == "NoPropErr") {
+			// (a value without any B — BaseObj — has no truth to agree on)
 			w.End(fw.Result{Verdict: fw.Inconclusive, Reason: "B-not-a-value"})
 			continue
 		}
-		truth := bo.Val == object.BuiltInTrue
+		// a B that raises does not yield the true singleton: such a value is falsy for every construct alike
+		truth := bo.OK() && bo.Val == object.BuiltInTrue
 		kcls := v.Family
 		if v.Has("desc") {
 			kcls += "+desc"
 		}
 		if v.Has("userB") {
 			kcls += "+userB(" + bo.Inspect + ")"
+		}
+		if bo.Err != nil {
+			kcls += "+B-raises"
 		}
 		// zero-value table
 		tableFam := map[string]bool{"int": true, "float": true, "str": true, "arr": true, "obj": true, "map": true, "nil": true, "bool": true}
